@@ -81,3 +81,11 @@ chk('C01', 'exploration',
     'my own machine map. The image writer is cross-validated against llvm-readobj in every run.',
     'Image writer independent of elftools; section payloads well formed for their type; registries vendored.',
     'ground-truth generator oracle + registry name oracle + stream poisoning + third-implementation cross-validation', 'DESIGN.md section 4 C01')
+chk('C02', 'exploration',
+    'Ground truth for section/segment bytes (boundary sizes, NOBITS, every zlib mode under both compression-header layouts, the three '
+    'rejecting cases), string lookups at every offset of the table, interpreter path and PT_LOAD address mapping at every boundary query; '
+    'traced streams assert data() reads only its own extent. For section_in_segment the library is compared with my transcription of '
+    "binutils' ELF_SECTION_IN_SEGMENT_STRICT over a boundary-geometry grid, and the transcription is itself compared with `readelf -lW` "
+    'on real files in every run (pairs readelf suppresses are not judged).',
+    'Macro transcribed from binutils and cross-validated against readelf 2.40 each run; size >= 1 address ranges.',
+    'ground-truth oracle + reference rule cross-validated against GNU readelf + traced-stream extent monitor', 'DESIGN.md section 4 C02')
